@@ -33,6 +33,7 @@ type Snap struct {
 	Unreach  int                 `json:"unreach"`
 	Answered int                 `json:"answered"`
 	Stream   string              `json:"stream"`
+	RecvC    []int               `json:"recvc"`
 }
 
 type Op struct {
@@ -69,6 +70,10 @@ type sideB struct {
 }
 
 type rig struct {
+	addrC        string
+	c            *actor.Engine
+	rc           *remote.Remote
+	logC         []delivery
 	addrA, addrB string
 	a            *actor.Engine
 	ra           *remote.Remote
@@ -177,6 +182,11 @@ func newRig() (*rig, error) {
 				return
 			}
 			r.mu.Lock()
+			if t == "c" {
+				r.deadBad = fmt.Sprintf("message c:%d:%d to the other peer, which is up all the time, came back as a dead letter", k, i)
+				r.mu.Unlock()
+				return
+			}
 			r.dead[t+":"+fmt.Sprint(k)]++
 			wantSender := i%2 == 0
 			if target == nil || target.Address != r.addrB || target.ID != "rec/1" || (sender != nil) != wantSender {
@@ -189,6 +199,23 @@ func newRig() (*rig, error) {
 	if err := r.startB(1); err != nil {
 		return nil, err
 	}
+	// the other peer: up for the whole case
+	r.addrC = freeAddr()
+	r.rc = remote.New(r.addrC, remote.NewConfig())
+	ce, err := actor.NewEngine(actor.NewEngineConfig().WithRemote(r.rc))
+	if err != nil {
+		return nil, err
+	}
+	r.c = ce
+	ce.SpawnFunc(func(c *actor.Context) {
+		if m, ok := c.Message().(*remote.TestMessage); ok {
+			if t, k, i, ok := parse(m.Data); ok {
+				r.mu.Lock()
+				r.logC = append(r.logC, delivery{t, k, i, 0, ""})
+				r.mu.Unlock()
+			}
+		}
+	}, "rec", actor.WithID("1"), actor.WithInboxSize(1024))
 	return r, nil
 }
 
@@ -197,6 +224,9 @@ func (r *rig) close() {
 		r.b.r.Stop().Wait()
 	}
 	r.ra.Stop().Wait()
+	if r.rc != nil {
+		r.rc.Stop().Wait()
+	}
 }
 
 // observed state in the model's terms
@@ -244,6 +274,30 @@ func (r *rig) observe() (map[string][][2]int, map[string]int, int, string) {
 		dead[k] = n
 	}
 	return recv, dead, r.unreach, problem
+}
+
+// observeC: the bursts that have arrived completely on C, in order of arrival
+func (r *rig) observeC() ([]int, string) {
+	r.mu.Lock()
+	defer r.mu.Unlock()
+	out := []int{}
+	next := map[int]int{}
+	for _, d := range r.logC {
+		if d.i != next[d.k] {
+			return out, fmt.Sprintf("messages of burst c:%d to the other peer arrived out of order or twice: %d arrived where %d was due", d.k, d.i, next[d.k])
+		}
+		next[d.k] = d.i + 1
+		if d.i == 0 {
+			out = append(out, d.k)
+		}
+	}
+	full := []int{}
+	for _, k := range out {
+		if next[k] == r.nsent["c:"+fmt.Sprint(k)] {
+			full = append(full, k)
+		}
+	}
+	return full, ""
 }
 
 func sameRecv(got map[string][][2]int, want map[string][][2]int) bool {
@@ -296,6 +350,13 @@ func (r *rig) matches(after Snap, answered int) (bool, string) {
 	if unreach != after.Unreach {
 		return false, fmt.Sprintf("%d RemoteUnreachableEvents published, expected %d", unreach, after.Unreach)
 	}
+	gotC, pc := r.observeC()
+	if pc != "" {
+		return false, pc
+	}
+	if fmt.Sprint(gotC) != fmt.Sprint(append([]int{}, after.RecvC...)) {
+		return false, fmt.Sprintf("bursts delivered on the other peer: %v, expected %v", gotC, after.RecvC)
+	}
 	if answered != after.Answered {
 		return false, fmt.Sprintf("%d requests answered, expected %d", answered, after.Answered)
 	}
@@ -339,6 +400,16 @@ func runCase(c *Case) (int, string, []string) {
 			case <-done:
 			case <-time.After(20 * time.Second):
 				return i, "sending blocks the caller", names
+			}
+		case "burstc":
+			n := 40
+			key := "c:" + fmt.Sprint(op.K)
+			r.mu.Lock()
+			r.nsent[key] = n
+			r.mu.Unlock()
+			tc := actor.NewPID(r.addrC, "rec/1")
+			for j := 0; j < n; j++ {
+				r.a.Send(tc, &remote.TestMessage{Data: []byte(fmt.Sprintf("c:%d:%d", op.K, j))})
 			}
 		case "ask":
 			v, err := r.a.Request(echo, &actor.Ping{From: r.senderPID}, 5*time.Second).Result()
